@@ -351,6 +351,63 @@ func c14Scenarios() []c14Scenario {
 			Verdict: c14Verdict(func() string { sort.Strings(outcomes); return strings.Join(outcomes, ",") }),
 		}
 	}})
+	// S16: an application goroutine enumerates the registry and reads every accessor of every
+	// connection while TLS clients are between connect, handshake and their first command
+	out = append(out, c14Scenario{Name: "S16-registry-accessors-vs-tls-handshake", New: func() *sched.Run {
+		seen := 0
+		return &sched.Run{
+			Body: func() {
+				kit, err := getKit()
+				if err != nil {
+					return
+				}
+				s := srv.NewServer(srv.NewDouble())
+				s.SetTLSPort(6380)
+				s.SetTLSCertFile(kit.ServerCert)
+				s.SetTLSKeyFile(kit.ServerKey)
+				s.SetTLSCaCertFile(kit.CAFile)
+				if s.Start() != nil {
+					return
+				}
+				for i := 0; i < 2; i++ {
+					vrt.Go(fmt.Sprintf("client%d", i), func() {
+						raw, err := vrt.Dial(":6380")
+						if err != nil {
+							return
+						}
+						// a slow client: it sends its ClientHello only when everything else has come to
+						// rest (the server has registered the connection and waits in the handshake)
+						raw.ReadOrQuiet(make([]byte, 1))
+						tc := tls.Client(raw, kit.clientTLSConfig(kit.Clients["valid"]))
+						if tc.Handshake() != nil {
+							raw.Close()
+							return
+						}
+						sched.Wrap(tc, raw).Do("PING")
+						// stays connected: the application looks at it below
+					})
+				}
+				for i := 0; i < 3; i++ {
+					vrt.WaitQuiet() // the clients are connected and slow to start, in the handshake, or served
+					for _, c := range s.Conns() {
+						seen++
+						c.IsTLSConnection()
+						c.TLSConnectionState()
+						c.UserName()
+						c.Password()
+						c.Database()
+						c.IsAuthrized()
+						c.Timestamp()
+						c.UUID()
+						// not SpanContext(): the span context is the working state of the connection's own
+						// loop (rewritten for every request), not something a registry query reads
+					}
+					vrt.Yield("application-poll")
+				}
+			},
+			Verdict: c14Verdict(func() string { return fmt.Sprint("seen=", seen) }),
+		}
+	}})
 	out = append(out, lifecycle("S4-stop-vs-clients", func(s *redis.Server) error { return s.Stop() }, false))
 	out = append(out, lifecycle("S5-restart-with-idle-client", func(s *redis.Server) error { return s.Restart() }, true))
 	out = append(out, lifecycle("S5b-restart-with-new-password", func(s *redis.Server) error { s.SetRequirePass("pw"); return s.Restart() }, true))
@@ -469,7 +526,7 @@ func init() {
 	fw.Register(&fw.Prop{
 		ID:    "C14",
 		Level: "model_checking",
-		Rule:  "17 scenarios on the real Start/accept loop/connection goroutines over the in-memory network: two clients doing CONFIG SET/GET; a client connecting while another CONFIG SETs requirepass; two clients running a command of every executor family (and AUTH sequences) against a race-free double; two clients connecting/disconnecting while the harness enumerates the registry (Conns, ConnByUUID, connection accessors); Stop concurrent with clients mid-command and connecting; Restart with an idle client; Restart after SetRequirePass; two TLS clients (real handshake) doing CONFIG SET while Stop runs; two application goroutines enumerating the registry at once right after a connect, with a further client connecting or with Stop running; two connected clients sending AUTH (one- and two-argument) and SELECT while Stop / Restart closes their connections; an application goroutine calling the configuration API (SetConfig, AppendConfig, RemoveConfig, ConfigString, SetRequirePass, RemoveRequirePass, SetTLSPort, ...) while two clients read the configuration literally and through patterns, write it, connect and authenticate; Stop / Restart sweeping connections whose Close reports an error. Local variables shared with a goroutine through a closure started by a go statement are instrumented like fields. Every schedule within deviation bound 2 (thorough 3) is executed with every field access of the instrumented framework feeding a vector-clock happens-before oracle (edges: go, mutex/RWMutex release-acquire, sync.Map per key, connection write->read, dial->accept, close->EOF/error; scheduler hand-offs are NOT edges); locations found racy become scheduling points and the exploration is repeated until the racy set is stable. A race is an unordered pair of access sites on one location with at least one write; a WaitGroup's first increment from zero and a blocking Wait count as read and write of one location, as in the Go race detector.",
+		Rule:  "18 scenarios on the real Start/accept loop/connection goroutines over the in-memory network: two clients doing CONFIG SET/GET; a client connecting while another CONFIG SETs requirepass; two clients running a command of every executor family (and AUTH sequences) against a race-free double; two clients connecting/disconnecting while the harness enumerates the registry (Conns, ConnByUUID, connection accessors); Stop concurrent with clients mid-command and connecting; Restart with an idle client; Restart after SetRequirePass; two TLS clients (real handshake) doing CONFIG SET while Stop runs; two application goroutines enumerating the registry at once right after a connect, with a further client connecting or with Stop running; two connected clients sending AUTH (one- and two-argument) and SELECT while Stop / Restart closes their connections; an application goroutine calling the configuration API (SetConfig, AppendConfig, RemoveConfig, ConfigString, SetRequirePass, RemoveRequirePass, SetTLSPort, ...) while two clients read the configuration literally and through patterns, write it, connect and authenticate; Stop / Restart sweeping connections whose Close reports an error; an application goroutine reading every accessor of every registered connection while TLS clients handshake. Local variables shared with a goroutine through a closure started by a go statement are instrumented like fields. Every schedule within deviation bound 2 (thorough 3) is executed with every field access of the instrumented framework feeding a vector-clock happens-before oracle (edges: go, mutex/RWMutex release-acquire, sync.Map per key, connection write->read, dial->accept, close->EOF/error; scheduler hand-offs are NOT edges); locations found racy become scheduling points and the exploration is repeated until the racy set is stable. A race is an unordered pair of access sites on one location with at least one write; a WaitGroup's first increment from zero and a blocking Wait count as read and write of one location, as in the Go race detector.",
 		Assumptions: []string{
 			"setters documented as pre-start configuration (SetTracer, SetCommandHandler, RegisterExexutor, SetPort) are called before Start only; SetRequirePass before Restart is called by the lifecycle thread between Stop-free calls as the repository's own tests do",
 			"the race-detector stress with 2..32 clients is replaced by exhaustive small scenarios: a race is a pair of accesses, two contending threads exhibit it",
